@@ -167,6 +167,10 @@ def roll(op, to_tensor, argname_axis="axis", argname_shift="shift"):
             else:
                 raise ValueError(f"When 'shift' has length != 1, it must have the same length as 'axis'. Got lengths {len(shift)} and {len(axis)}.")
 
+        if len(axis) == 0:
+            # Nothing to roll (e.g. a bracketed ellipsis that expands to zero axes); np.roll rejects empty tuples
+            return x
+
         kwargs = {}
         kwargs[argname_axis] = axis
         kwargs[argname_shift] = shift
